@@ -97,7 +97,7 @@ func domList(d map[clockDomain]bool) string {
 }
 
 func checkC15(c *Ctx) {
-	c.explanation = "Static decision on msg's SSA and must-locksets of: (G1/N1) the append to a topic's buffer is dominated by the per-sender count test whose over-limit arm returns without appending, the counter is incremented in the same exclusive section, and the creation of topic bookkeeping for a sender is dominated by the per-sender topic-count test; (P1) every storedMessages is constructed with the Box's logger (the over-limit arm logs through it: shedding must not fail); (O1) every deletion from pendingMessages is in an exclusive section that also removes the topic from totalInFlightTopicsBySender for the senders of that entry; (D1) no comparison mixes clock domains (epoch counter, durations in ns, wall-clock units): GCExpire/GCSweep is an epoch count, atomic loads of the counters and the stored started/last-used marks are epochs; (A1) maybeGC proceeds only when at least GCExpire/GCSweep epochs have passed since the last collection (so an idle period cannot disable it) and lastGC is only ever set to the epoch just read. Quantitative bounds under concurrency (\"give or take one\") and long histories as behaviour are not decided; the two-section check-then-act on the per-sender topic count is deliberately not armed (with one connection per sender it is the property's tolerance)."
+	c.explanation = "Static decision on msg's SSA and must-locksets of: (G1/N1) the append to a topic's buffer is dominated by the per-sender count test whose over-limit arm returns without appending, the counter is incremented in the same exclusive section, and the creation of topic bookkeeping for a sender is dominated by the per-sender topic-count test; (P1) every storedMessages is constructed with the Box's logger (the over-limit arm logs through it: shedding must not fail); (O1) every deletion from pendingMessages is in an exclusive section that also removes the topic from totalInFlightTopicsBySender for the senders of that entry; (O2/O3) a bookkeeping entry is made only together with a buffered message and every buffered message has its (sender, topic) entered on the way; (D1) no comparison mixes clock domains (epoch counter, durations in ns, wall-clock units): GCExpire/GCSweep is an epoch count, atomic loads of the counters and the stored started/last-used marks are epochs; (A1) maybeGC proceeds only when at least GCExpire/GCSweep epochs have passed since the last collection (so an idle period cannot disable it) and lastGC is only ever set to the epoch just read. Quantitative bounds under concurrency (\"give or take one\") and long histories as behaviour are not decided; the two-section check-then-act on the per-sender topic count is deliberately not armed (with one connection per sender it is the property's tolerance)."
 	c.notDecided = "quantitative bounds under concurrent dispatchers of one sender; long histories as behaviour"
 	c.Assume("sync.RWMutex and sync/atomic semantics; the injected ticker drives the epoch counter")
 	b := buildBoxModel(c)
@@ -178,8 +178,27 @@ func checkC15(c *Ctx) {
 				c.Unk(G1, FuncName(fn), "topic bookkeeping under the per-sender topic limit", m.Pos(mu.Pos()), "cannot enumerate calling contexts")
 				continue
 			}
+			// a sender without an entry in the bookkeeping has no topic in flight: the limit holds trivially
+			// on the "no entry" arm of the comma-ok lookup, so that arm is left out when asking which
+			// tests every path to the insertion has passed (`if exists && len(..) > max { return }`)
+			noEntry := func(blk *ssa.BasicBlock, succ int) bool {
+				iff, ok := blk.Instrs[len(blk.Instrs)-1].(*ssa.If)
+				if !ok {
+					return false
+				}
+				f := factOf(Guard{iff, succ == 0})
+				if f.Op != 0 || f.True {
+					return false
+				}
+				tup, isOK := commaOK(strip(f.Bool))
+				if !isOK {
+					return false
+				}
+				lk, isL := tup.(*ssa.Lookup)
+				return isL && isLoadOfField(lk.X, b.fTotals)
+			}
 			for _, sc := range ctxs {
-				ok := hasFact(sc.Facts(), func(f Fact) bool {
+				ok := hasFact(append(sc.Facts(), sc.FactsP(noEntry)...), func(f Fact) bool {
 					var v ssa.Value
 					switch {
 					case f.Op == 0 && !f.True:
